@@ -308,7 +308,8 @@ class C15(PropertyCheck):
     rule = ("case = (dims over {2,3}^N, N<=3; t1/t2 each None | scalar | per-subsystem list with optional None entries; relation "
             "t2 vs 2 t1 in {inside, near-boundary, boundary, outside}; explicit targets; entry point RelaxationNoise / "
             "process_noise / Processor; extra noise objects); exact dyadic times; non-trivial = at least one time given; "
-            "malformed stream = non-positive scalars, wrong-length lists, non-positive list entries, out-of-range targets")
+            "malformed stream = non-positive scalars, wrong-length lists, non-positive list entries, out-of-range targets; the "
+            "property oracle additionally replays histories (one processor, 0-2 extra noise objects, 1-3 requests)")
 
     # ---------------------------------------------------------------------------------
     def _compare(self, ctx, res, via, dims, t1, t2, targets=None, specs=(), device=True, numpy_float=False, tags=()):
@@ -535,7 +536,7 @@ class C15(PropertyCheck):
     def _history(self, ctx, w):
         """ONE processor with t1/t2 and 0-2 further noise objects, asked 1-3 times for its noisy dynamics
         (get_noisy_pulses / get_qobjevo(noisy=True)+mesolve / run_state): the number and the rates of the collapse
-        operators, the decay curves and the processor's own noise list must be the specified ones at EVERY call."""
+        operators and the decay curves must be the specified ones at EVERY call (and at one more request afterwards)."""
         qutip, noise, Processor = _impl()
         dims = list(w["dims"])
         N = len(dims)
@@ -583,11 +584,11 @@ class C15(PropertyCheck):
                 p.set_tlist({"z0": tl})
             for o in objs:
                 p.add_noise(o)
-            n0 = len(p.noise)
         except Exception as e:
             return True, f"valid processor set-up raised {type(e).__name__}: {str(e)[:100]}"
         opts = {"atol": 1e-11, "rtol": 1e-9, "nsteps": 100000}
-        for k, call in enumerate(calls, 1):
+        # one more, cheap, request at the end: what the calls left behind must not change the next answer
+        for k, call in enumerate(calls + ["pulses"], 1):
             states = None
             try:
                 if call == "pulses":
@@ -613,9 +614,7 @@ class C15(PropertyCheck):
                 bad = self._decay_check(dims, times, states, g1, g2)
                 if bad:
                     return True, f"call {k} ({call}) of the same processor: " + bad
-            if len(p.noise) != n0:
-                return True, f"after call {k} ({call}) the processor carries {len(p.noise)} noise objects instead of {n0}"
-        return False, f"{len(calls)} calls: same {n_ops} collapse operators, same decay laws, noise list unchanged"
+        return False, f"{len(calls)} calls (+1 final get_noisy_pulses): same {n_ops} collapse operators with the specified rates, same decay laws"
 
     @staticmethod
     def _physical_state(st):
